@@ -12,7 +12,7 @@ import (
 )
 
 func TestC04(t *testing.T) {
-	quick, thor := 75*time.Second, 18*time.Minute
+	quick, thor := 100*time.Second, 20*time.Minute
 	// Development knob for a loaded machine: C04_TIME_SCALE=4 multiplies both budgets.
 	if s := os.Getenv("C04_TIME_SCALE"); s != "" {
 		var f float64
@@ -21,7 +21,7 @@ func TestC04(t *testing.T) {
 		}
 	}
 	nrun.Main(t, &nrun.Check{
-		ID: "C04", TestName: "TestC04", Plans: cscen.Plans(),
+		ID: "C04", TestName: "TestC04", Plans: append(cscen.Plans(), cscen.GenPlans()...),
 		QuickTime: quick, ThorTime: thor,
 		// the buffered/unbuffered hook pairing rides on these scenarios but is C14's subject
 		Keep: func(_, key string) bool { return !strings.HasPrefix(key, "hook-") },
